@@ -594,7 +594,7 @@ fn gen(rng: &mut Rng, tier: Tier, out: &mut Vec<String>) {
             let mut vs: Vec<[f32; 3]> = vec![[1.0, 0.0, 0.0], [0.0, -2.0, 0.0], [0.0, 0.0, 0.5], [3.0, 4.0, 0.0], [1.0, 1.0, 1.0],
                 [-1.0, 2.0, -3.0], [1e-10, 0.0, 0.0], [1e10, -1e10, 1e10], [1e-6, 1e-6, -1e-6], [123.0, -0.001, 45.6]];
             for _ in 0..(if thorough { 2000 } else { 200 }) {
-                let s = [1.0f32, 1e-4, 1e4, 1e-9, 1e8][rng.below(5) as usize];
+                let s = [1.0f32, 1e-4, 1e4, 1e-9, 1e8, 1e-20, 3e-21][rng.below(7) as usize];
                 vs.push([rng.f32_in(-1.0, 1.0) * s, rng.f32_in(-1.0, 1.0) * s, rng.f32_in(-1.0, 1.0) * s]);
             }
             for v in vs {
